@@ -370,6 +370,35 @@ def scale_cases(eng, res, fields, what, quick, rng):
                "reference_count": 1}
         closed_form_case(eng, res, s, s.enum_gitlike([prev]), exp, "%s: history of %d commits" % (what, big))
         n += 1
+    # directory nesting and tag chains beyond 4096 levels (legal for git 2.39), the deep tree shared by two commits — the root
+    # tree of one, the directory x of the other — so that it is delivered before or after a tree that contains it depending on
+    # which commit comes first: judged by closed form
+    for deep in ([4097] if quick else [1000, 4095, 4096, 4097, 5000, 9000]):
+        s = S.Scenario()
+        b = s.add({"kind": "blob", "data": b"x"})
+        t = s.add({"kind": "tree", "entries": [(0o100644, b"f", b)]})
+        chain_t = [t]
+        for i in range(deep):
+            t = s.add({"kind": "tree", "entries": [(0o40000, b"d", t)]})
+            chain_t.append(t)
+        ca = s.add({"kind": "commit", "tree": t, "parents": [], "date": 1000000000, "msg": b"deep at the root\n"})
+        tb = s.add({"kind": "tree", "entries": [(0o40000, b"x", t)]})
+        cb = s.add({"kind": "commit", "tree": tb, "parents": [], "date": 1000000000, "msg": b"deep below x\n"})
+        g = ca
+        chain_g = []
+        for i in range(deep):
+            g = s.add({"kind": "tag", "target": g, "name": b"v%d" % i})
+            chain_g.append(g)
+        s.refs += [(b"refs/heads/a", ca), (b"refs/heads/b", cb), (b"refs/tags/chain", g)]
+        s.compute()
+        down, tags_out = chain_t[::-1] + [b], chain_g[::-1]
+        exp = {"unique_commit_count": 2, "unique_tree_count": deep + 2, "unique_blob_count": 1, "max_path_depth": deep + 2, "max_path_length": 2 * deep + 3,
+               "max_expanded_tree_count": deep + 2, "max_expanded_blob_count": 1, "unique_tag_count": deep, "max_tag_depth": deep, "max_history_depth": 1}
+        for label, order in (("a first", tags_out + [ca, cb] + down + [tb]), ("b first", tags_out + [cb, ca, tb] + down),
+                             ("a first, commit by commit", tags_out + [ca] + down + [cb, tb]),
+                             ("sub-trees and inner tags first", [b] + chain_t + [tb, ca, cb] + chain_g)):
+            closed_form_case(eng, res, s, order, exp, "%s: %d nested directories and %d chained tags, %s" % (what, deep, deep, label))
+            n += 1
     for label, sc in scale_scenarios(quick):
         roots = [x for _, x in sorted(sc.refs)]
         for style in ("gitlike", "referent_first"):
